@@ -466,6 +466,7 @@ class Sampler:
         """
         # Store circuit unitary and input state
         vals = [self.__circuit.U_full, self.input_state, self.backend.backend]
+        vals.append(self.circuit.heralds)
         # Loop through source parameters and add these as well
         for prop in [
             "brightness",
